@@ -113,7 +113,7 @@ def replay(case):
             off = [g for g in gates if len(g[1]) == 2 and (min(g[1]), max(g[1])) not in es]
             if off:
                 return True, "two-qubit gate %s off the coupling graph of %d-%s" % (off[0], n, conn)
-            if [(g, tuple(q)) for g, q in gates if len(q) == 2] != [(g, tuple(q)) for g, q in tg if len(q) == 2]:
+            if circmetrics.skeleton_canon(gates, n) != circmetrics.skeleton_canon(tg, n):
                 return True, "two-qubit skeleton differs from the table entry of class %d" % cls
         if "C04" in want:
             c, d = circmetrics.two_qubit_count(gates), circmetrics.two_qubit_depth(gates, n)
